@@ -85,6 +85,32 @@ pub fn proof_txt(p: &Proof) -> String {
     format!("fork={} block={} hash={} seek={} up={}", p.fork, b, h, s, u)
 }
 
+/// full textual form: `fork=F block=I/VALUE/NODES hash=I/NODES seek=B/NODES up=S/L/NODES/ADD/SIG`
+pub fn proof_full_txt(p: &Proof) -> String {
+    let b = p.block.as_ref().map(|b| format!("{}/{}/{}", b.index, hex(&b.value), nodes_txt(&b.nodes))).unwrap_or("-".into());
+    let h = p.hash.as_ref().map(|b| format!("{}/{}", b.index, nodes_txt(&b.nodes))).unwrap_or("-".into());
+    let s = p.seek.as_ref().map(|b| format!("{}/{}", b.bytes, nodes_txt(&b.nodes))).unwrap_or("-".into());
+    let u = p.upgrade.as_ref().map(|u| format!("{}/{}/{}/{}/{}", u.start, u.length, nodes_txt(&u.nodes), nodes_txt(&u.additional_nodes), hex(&u.signature))).unwrap_or("-".into());
+    format!("fork={} block={} hash={} seek={} up={}", p.fork, b, h, s, u)
+}
+fn parse_nodes(s: &str) -> Option<Vec<Node>> {
+    if s == "-" { return Some(vec![]); }
+    s.split(',').map(|n| { let f: Vec<&str> = n.split(':').collect(); if f.len() != 3 { return None; } Some(Node::new(f[0].parse().ok()?, unhex(f[2]), f[1].parse().ok()?)) }).collect()
+}
+pub fn parse_proof(ws: &[&str]) -> Option<Proof> {
+    if ws.len() != 5 { return None; }
+    let fork: u64 = ws[0].strip_prefix("fork=")?.parse().ok()?;
+    let bs = ws[1].strip_prefix("block=")?;
+    let block = if bs == "-" { None } else { let f: Vec<&str> = bs.split('/').collect(); if f.len() != 3 { return None; } Some(DataBlock { index: f[0].parse().ok()?, value: unhex(f[1]), nodes: parse_nodes(f[2])? }) };
+    let hs = ws[2].strip_prefix("hash=")?;
+    let hash = if hs == "-" { None } else { let f: Vec<&str> = hs.split('/').collect(); if f.len() != 2 { return None; } Some(DataHash { index: f[0].parse().ok()?, nodes: parse_nodes(f[1])? }) };
+    let ss = ws[3].strip_prefix("seek=")?;
+    let seek = if ss == "-" { None } else { let f: Vec<&str> = ss.split('/').collect(); if f.len() != 2 { return None; } Some(DataSeek { bytes: f[0].parse().ok()?, nodes: parse_nodes(f[1])? }) };
+    let us = ws[4].strip_prefix("up=")?;
+    let upgrade = if us == "-" { None } else { let f: Vec<&str> = us.split('/').collect(); if f.len() != 5 { return None; } Some(DataUpgrade { start: f[0].parse().ok()?, length: f[1].parse().ok()?, nodes: parse_nodes(f[2])?, additional_nodes: parse_nodes(f[3])?, signature: unhex(f[4]) }) };
+    Some(Proof { fork, block, hash, seek, upgrade })
+}
+
 pub struct Sim {
     pub proof: Option<Proof>,
     /// the stored proof is the unaltered answer to a well-formed request
@@ -128,9 +154,11 @@ impl Sim {
 
     fn open_core(world: &Shared, kp: Option<PartialKeypair>) -> Result<Hypercore, String> {
         let w = world.clone();
+        let cache = world.lock().unwrap().cache;
         let r = block_on(AssertUnwindSafe(async move {
             let st = backend::storage(&w).await.map_err(|e| format!("err:{e}"))?;
             let b = HypercoreBuilder::new(st);
+            let b = match cache { Some(cap) => b.node_cache_options(if cap == 0 { hypercore::CacheOptionsBuilder::new() } else { hypercore::CacheOptionsBuilder::new().max_capacity(cap) }), None => b };
             let b = match kp { Some(kp) => b.key_pair(kp), None => b.open(true) };
             b.build().await.map_err(|e| format!("err:{e}"))
         }).catch_unwind());
@@ -166,18 +194,26 @@ impl Sim {
     /// Execute one protocol line; returns the observation line.
     pub fn exec(&mut self, line: &str) -> String {
         self.history.push(line.to_string());
+        crate::watchdog::enter(&self.history);
         let ws: Vec<&str> = line.split_whitespace().collect();
         let out = self.exec_words(&ws);
+        crate::watchdog::leave();
         self.line += 1;
         out
     }
 
     fn exec_words(&mut self, ws: &[&str]) -> String {
         match ws {
-            ["new", name, seed] => {
+            ["new", name, seed, ..] => {
                 let seed: [u8; 32] = unhex(seed).try_into().unwrap();
                 let sk = SigningKey::from_bytes(&seed);
                 let world = new_world(Default::default());
+                // optional 4th word `cache=N`: enable the node cache (N = capacity in bytes, 0 = default)
+                for opt in ws.iter().skip(3) {
+                    if let Some(c) = opt.strip_prefix("cache=") { world.lock().unwrap().cache = c.parse().ok(); }
+                    if *opt == "backend=mem" { world.lock().unwrap().kind = backend::Kind::Mem(std::sync::Arc::new(std::array::from_fn(|_| std::sync::Arc::new(futures::lock::Mutex::new(random_access_memory::RandomAccessMemory::default()))))); }
+                    if *opt == "backend=disk" { world.lock().unwrap().kind = backend::Kind::Disk(std::sync::Arc::new(tempfile::Builder::new().prefix("hcverif").tempdir_in("/verif/work").or_else(|_| tempfile::tempdir()).unwrap())); }
+                }
                 let kp = PartialKeypair { public: sk.verifying_key(), secret: Some(sk) };
                 let r = Self::open_core(&world, Some(kp));
                 let (core, out) = match r { Ok(c) => (Some(c), "ok".to_string()), Err(e) => (None, e.chars().take(3).collect()) };
@@ -337,10 +373,18 @@ impl Sim {
                 }));
                 format!("ok {}", h.subs.len())
             }
+            ["dumpz", name] => {
+                // as `dump`, but without trailing zero bytes (a zero-length write past the end extends
+                // the file on the memory backends and not on the disk backend)
+                let Some(h) = self.h.get_mut(*name) else { return "nocore".into() };
+                let f = backend::dump_files(&h.world);
+                let t = |v: &Vec<u8>| { let mut n = v.len(); while n > 0 && v[n - 1] == 0 { n -= 1; } show(&v[..n]) };
+                format!("T={} D={} B={} O={}", t(&f[0]), t(&f[1]), t(&f[2]), t(&f[3]))
+            }
             ["dump", name] => {
                 let Some(h) = self.h.get_mut(*name) else { return "nocore".into() };
-                let w = h.world.lock().unwrap();
-                format!("T={} D={} B={} O={}", show(&w.files[0]), show(&w.files[1]), show(&w.files[2]), show(&w.files[3]))
+                let f = backend::dump_files(&h.world);
+                format!("T={} D={} B={} O={}", show(&f[0]), show(&f[1]), show(&f[2]), show(&f[3]))
             }
             ["missing", name, i] | ["missingt", name, i] => {
                 let i: u64 = i.parse().unwrap();
@@ -372,7 +416,12 @@ impl Sim {
                 self.bump("op_prove");
                 format!("{out}{ev}")
             }
-            ["apply", name] => self.do_apply(name),
+            [op, name, rest @ ..] if *op == "applyp" => {
+                let Some(p) = parse_proof(rest) else { return "bad-op".into() };
+                // honest iff it is exactly the proof the writer just produced
+                let honest = self.proof_honest && self.proof.as_ref() == Some(&p);
+                self.do_apply(name, p, honest)
+            }
             ["crash", name, k, t] | ["crashgo", name, k, t] => {
                 let go = ws[0] == "crashgo";
                 let (k, t): (usize, usize) = (k.parse().unwrap(), t.parse().unwrap());
@@ -382,9 +431,7 @@ impl Sim {
         }
     }
 
-    fn do_apply(&mut self, name: &str) -> String {
-        let Some(proof) = self.proof.clone() else { return "noproof".into() };
-        let honest = self.proof_honest;
+    fn do_apply(&mut self, name: &str, proof: Proof, honest: bool) -> String {
         let wlen = self.proof_writer_len;
         let Some(h) = self.h.get_mut(name) else { return "nocore".into() };
         if h.core.is_none() { return "nocore".into(); }
